@@ -85,8 +85,8 @@ __CPROVER_assigns(eav->initialized)
 #endif
 __CPROVER_frees(eav->result)
 #ifdef EAV_EXTRA
-__CPROVER_frees(eav->result->lpart, eav->result->domain)
-__CPROVER_assigns(eav->result->lpart, eav->result->domain)
+__CPROVER_frees(eav->result != NULL: eav->result->lpart, eav->result->domain)
+__CPROVER_assigns(eav->result != NULL: eav->result->lpart, eav->result->domain)
 #endif
 __CPROVER_ensures(eav->result == NULL && (g_old_result != NULL ==> __CPROVER_was_freed(g_old_result)))
 #ifdef HAVE_IDNKIT
@@ -114,8 +114,8 @@ void eav_result_free(eav_result_t *result)
 __CPROVER_requires(RESULT_OK(result) && g_old_result == result)
 __CPROVER_assigns()
 #ifdef EAV_EXTRA
-__CPROVER_assigns(result->lpart, result->domain)
-__CPROVER_frees(result->lpart, result->domain)
+__CPROVER_assigns(result != NULL: result->lpart, result->domain)
+__CPROVER_frees(result != NULL: result->lpart, result->domain)
 #endif
 __CPROVER_frees(result)
 __CPROVER_ensures(g_old_result != NULL ==> __CPROVER_was_freed(g_old_result))
